@@ -78,6 +78,42 @@ def run_impl(env, names, anc, insertion_order=None):
                 {n: ("<unreadable>",) for n in names})
 
 
+def definitions_untouched(env, names, anc, kind):
+    """The construction is a function of the definitions and leaves them alone: dependency sets given as plain `set`s (or
+    frozensets), read back afterwards, then used for a second construction.  Returns a list of failures."""
+    VariablesDAG, LIE = env
+    mk = {"set": set, "frozenset": frozenset, "mixed": None}[kind]
+    variables = {n: _V() for n in names}
+    direct = {n: (mk(anc[n]) if mk else (set(anc[n]) if i % 2 else frozenset(anc[n]))) for i, n in enumerate(names)}
+    fails = []
+    try:
+        dag = VariablesDAG(variables, direct_ancestors=direct)
+        first = (tuple(dag.sorted_variables_names), {n: tuple(dag.sorted_children[n]) for n in names},
+                 {n: tuple(dag.sorted_ancestors[n]) for n in names})
+    except Exception as e:  # noqa
+        return [f"accepted definitions refused when the dependency sets are given as {kind}: {type(e).__name__}: {str(e)[:100]}"]
+    changed = [n for n in names if set(direct[n]) != set(anc[n])]
+    if changed:
+        fails.append(f"the construction modified the caller's definitions (dependency sets given as {kind}): {changed[:4]}")
+    try:
+        wrong = [n for n in names if set(dag.direct_ancestors[n]) != set(anc[n])]
+        if wrong:
+            fails.append(f"the graph reports direct dependencies {dict((n, sorted(dag.direct_ancestors[n])) for n in wrong[:3])} "
+                         f"for definitions {dict((n, sorted(anc[n])) for n in wrong[:3])} (sets given as {kind})")
+    except Exception as e:  # noqa
+        fails.append(f"direct dependencies of the constructed graph cannot be read: {type(e).__name__}")
+    if not changed:
+        try:
+            dag2 = VariablesDAG({n: _V() for n in names}, direct_ancestors=direct)
+            second = (tuple(dag2.sorted_variables_names), {n: tuple(dag2.sorted_children[n]) for n in names},
+                      {n: tuple(dag2.sorted_ancestors[n]) for n in names})
+            if second != first:
+                fails.append(f"a second construction from the same definitions gives another graph (sets given as {kind})")
+        except Exception as e:  # noqa
+            fails.append(f"a second construction from the same definitions is refused: {type(e).__name__}: {str(e)[:100]}")
+    return fails
+
+
 def reach(names, anc):
     """Independent transitive closure: desc[a] = set of nodes reachable from a by >=1 edge (a -> child)."""
     children = {n: set() for n in names}
@@ -350,6 +386,8 @@ def run(chk: core.Check):
             chk.impl_failure(cj, f)
         # determinism: other insertion orders of the same definitions
         if res[0] == "ok" and len(names) > 1 and (tag.startswith("random") or tag.startswith("model") or len(names) == 3):
+            for f in definitions_untouched(env, names, anc, rng.choice(["set", "set", "frozenset", "mixed"]))[:2]:
+                chk.impl_failure(cj, f)
             sh = names[:]
             rng.shuffle(sh)
             for other in (sh, names[::-1]):
@@ -391,6 +429,13 @@ def replay(chk: core.Check, payload):
     fails, _ = predicate(names, anc, res)
     for f in fails:
         chk.impl_failure(case, f)
+    if res[0] == "ok":
+        for kind in ("set", "frozenset", "mixed"):
+            for f in definitions_untouched(env, names, anc, kind)[:2]:
+                chk.impl_failure(case, f)
+        for other in (names[::-1],):
+            if run_impl(env, names, anc, insertion_order=other) != res:
+                chk.impl_failure(case, f"result depends on the insertion order of the definitions ({other})")
     line, ranked = to_line(names, anc)
     out = chk.model([line])
     if out[0] != canon_impl(res, ranked):
